@@ -92,6 +92,21 @@ def make_probe(J, mx, dx0, jnt_type):
 PROBES = ["sum_w qacc", "|next qpos|^2", "sum_w next qvel+act", "sum_w sensordata", "sum_w bias+passive+actuator_force"]
 
 
+def solver_converged(J, mx, dx0, jnt_type, T, B):
+    """Per state: is MJX's qacc a stationary point of its own constraint cost?  |M^-1 (M qacc - qfrc_smooth - qfrc_constraint)|
+    must be tiny; otherwise the output is the truncated iterate of a solver whose stopping rule is not smooth in the inputs,
+    and neither autodiff nor finite differences of it mean anything (counted solver_not_converged_skipped)."""
+    jax, jp = J.jax, J.jp
+
+    def f(theta, base):
+        q = tangent_qpos(jp, jnt_type, base["qpos"], theta["dq"])
+        d = J.fwd.forward(mx, dx0.replace(qpos=q, qvel=theta["qvel"], ctrl=theta["ctrl"], act=theta["act"]))
+        M = J.support.full_m(mx, d)
+        g = M @ d.qacc - d.qfrc_smooth - d.qfrc_constraint
+        return jp.max(jp.abs(jp.linalg.solve(M, g))) / (1.0 + jp.max(jp.abs(d.qacc)))
+    return np.asarray(jax.jit(jax.vmap(f))(T, B))
+
+
 def check_model(J, lib, part, item):
     jax, jp, mujoco, mjx = J.jax, J.jp, J.mujoco, J.mjx
     mw = mujoco.MjModel.from_xml_string(item["xml"])
@@ -132,6 +147,12 @@ def check_model(J, lib, part, item):
         return
     pf = jax.jit(jax.vmap(p))
     f0 = np.asarray(pf(T, B))
+    skip = set()
+    if int(np.asarray(dx0._impl.efc_type).size):
+        dev = solver_converged(J, mx, dx0, jnt_type, T, B)
+        skip = set(int(k) for k in np.nonzero(~(dev <= 1e-9))[0])
+        if skip:
+            part.add("solver_not_converged_skipped", len(skip))
     fam = item["name"].split("#")[0]
     stats = part.setdefault("stats", {})
     blocks = [k for k in thetas[0] if thetas[0][k].size]
@@ -156,6 +177,8 @@ def check_model(J, lib, part, item):
             fd[:, :, c] = (4.0 * central(hs / 2) - central(hs)) / 3.0
         g = Jx[blk].reshape(len(states), len(PROBES), n)
         for si in range(len(states)):
+            if si in skip:
+                continue
             part.count(1, key=(item["name"], mode, blk, si),
                        sample={"model": item["name"], "mode": mode, "block": blk, "state": si, "ncoord": n} if si == 1 else None)
             for pi in range(len(PROBES)):
@@ -265,12 +288,14 @@ def alphabet(thorough):
     # function of the inputs, so only the converged solver is differentiated (forward mode).
     for ti, (par, js) in enumerate([((-1, 0), ("hinge", "slide"))] + ([((-1,), ("ball",)), ((-1, 0), ("free", "hinge"))] if thorough else [])):
         op, desc = o(2 * ti, iterations=50)
+        op, desc = op.replace('solver="CG"', 'solver="Newton"'), (desc[0], "Newton") + desc[2:]   # see solver_converged()
         it = G.tree_model("constr[%s]" % ",".join(js), par, js, op, limits=True, friction=True, equality=["connect"],
                           tendon="full", actuators=1, sensors=1)
         add(it, desc + ("iter50",), ["fwd"] + (["rev"] if ti == 0 else []), ns)
     scenes = [[("plane", "sphere")]] + ([[("plane", "capsule"), ("sphere", "sphere")]] if thorough else [])
     for ci, pairs in enumerate(scenes):
         op, desc = o(ci * 3 + 2, iterations=50)
+        op, desc = op.replace('solver="CG"', 'solver="Newton"'), (desc[0], "Newton") + desc[2:]
         it = G.contact_model("contact[%s]" % "+".join("-".join(p_) for p_ in pairs), op, pairs, condim=3)
         add(it, desc + ("iter50",), ["fwd"], ns)
     return items
